@@ -234,31 +234,46 @@ def run(repo, chk):
     chk.expect(bool(acc) and bool(rej) and not bad, 'C06.L1', 'ps_ident flavour filter',
                'ps_ident must return the identifier iff its flavour is allowed and raise ParserError otherwise', GRAMMAR, ident.lineno)
     # lexer side (interpreted over the three prefixes)
-    rd = repo.find_func(READERS, 'read_ident_or_keyword_token')
-    text = src(rd)
-    chk.expect("scan.exact('@')" in text and 'tokens.Flavor.YOU' in text and "scan.exact('!')" in text
-               and 'tokens.Flavor.DEFEAT' in text, 'C06.L1', 'read_ident_or_keyword_token prefixes',
-               '@ must give Flavor.YOU and ! must give Flavor.DEFEAT', READERS, rd.lineno)
-    rpaths = __import__('hidverif.efg', fromlist=['x']).enumerate_paths(rd)
-    for p in rpaths:
-        conds = __import__('hidverif.efg', fromlist=['x']).Conds(p.events)
-        flav = None
-        if conds.get("scan.exact('@')") is True:
-            flav = 'tokens.Flavor.YOU'
-        elif conds.get("scan.exact('!')") is True:
-            flav = 'tokens.Flavor.DEFEAT'
-        rets = [e for e in p.events if e.kind == 'return']
-        if flav and rets:
-            rv = src(rets[-1].value)
-            ok = rv == 'tokens.Ident(ident, flavor)' and conds.get('ident not in keyword_tokens') is True
-            chk.expect(ok, 'C06.L1', f'flavoured identifier path {flav.split(".")[-1]}',
-                       f'a flavoured prefix must yield Ident(ident, flavor) only for non-keywords; returns {rv}', READERS, rets[-1].line)
-            asg = [src(e.value) for e in p.events if e.kind == 'assign' and e.target == 'flavor']
-            chk.expect(asg == [flav], 'C06.L1', f'flavour assignment {flav.split(".")[-1]}', f'flavor = {asg}', READERS)
-        elif rets and flav is None:
-            rv = src(rets[-1].value)
-            chk.expect(rv in ('keyword_tokens[ident]', 'tokens.Ident(ident)', 'None'), 'C06.L1',
-                       f'unflavoured identifier path -> {rv}', 'plain identifiers carry Flavor.NONE', READERS, rets[-1].line)
+    # lexer side: the identifier reader, interpreted on one representative of each of the 3 x 3 input classes
+    # (no sigil / @ / !) x (identifier / keyword / neither) - the identifier pattern and the keyword table themselves
+    # are decided in C12
+    it0 = cf.interp
+    rdns = it0.load(READERS)
+    scns = it0.load('hidc/lexer/scanner.py')
+    tok0 = it0.load(TOKENS)
+    reader = rdns.get('read_ident_or_keyword_token')
+    if reader is None:
+        raise AnalysisError('read_ident_or_keyword_token not found in readers.py')
+    kw = next(iter(rdns['keyword_tokens']))
+    FL = tok0['Flavor']
+    for sigil, flavor in (('', FL.NONE), ('@', FL.YOU), ('!', FL.DEFEAT)):
+        for word, kind in (('foo_1', 'identifier'), (kw, 'keyword'), ('=', 'neither'), ('', 'end of line')):
+            text = sigil + word + ' rest'
+            scan = scns['Scanner'](scns['SourceCode']('f', [text]))
+            key = f'read_ident_or_keyword_token[{sigil or "no sigil"} + {kind}]'
+            try:
+                got = reader(scan)
+                err = None
+            except rdns['LexerError'] as e:
+                got, err = None, e
+            except Exception as e:      # noqa: BLE001
+                chk.fail('C06.L1', key, f'{type(e).__name__}: {e}', READERS)
+                continue
+            if kind == 'identifier':
+                ok = err is None and type(got).__name__ == 'Ident' and got.base_name == word and got.flavor is flavor \
+                    and scan.col == len(sigil + word)
+                want = f'Ident({word!r}, {flavor.name}) and the cursor behind it'
+            elif kind == 'keyword' and not sigil:
+                ok = err is None and got is rdns['keyword_tokens'][kw] and scan.col == len(word)
+                want = 'the keyword token'
+            elif not sigil:
+                ok = err is None and got is None and scan.col == 0
+                want = 'None without consuming anything'
+            else:
+                ok = err is not None
+                want = 'a LexerError (a sigil must be followed by a non-keyword identifier)'
+            chk.expect(ok, 'C06.L1', key, f'{text!r}: returned {got!r}{" raised " + str(err) if err else ""}, cursor at {scan.col}; expected {want}',
+                       READERS)
     # Ident default flavour is NONE; Flavor values
     it = cf.interp
     tok = it.load(TOKENS)
@@ -293,12 +308,23 @@ def run(repo, chk):
     proc = pm.get('process')
     ok = proc is not None
     if ok:
-        first = proc.body[0]
-        ok = isinstance(first, ast.Assign) and src(first) == 'coro = self.consume()'
+        # a fresh coroutine per invocation: self.consume() is called exactly once, outside any loop, and bound to a local
+        import builtins as _bi
+        consumes = [n for n in ast.walk(proc) if isinstance(n, ast.Call) and src(n.func) == 'self.consume']
+        in_loop = any(isinstance(a, (ast.For, ast.While)) and any(c in list(ast.walk(a)) for c in consumes) for a in ast.walk(proc))
+        ok = len(consumes) == 1 and not consumes[0].args and not in_loop
+        # no state besides its own locals: the only attributes of self it touches are consume / backtrack, and every other
+        # name is a parameter, a local it binds itself, or a builtin (a memo table would be a module / instance name)
         names_used = {n.attr for n in ast.walk(proc) if isinstance(n, ast.Attribute) and isinstance(n.value, ast.Name) and n.value.id == 'self'}
         ok = ok and names_used <= {'consume', 'backtrack'}
-        glob_names = {n.id for n in ast.walk(proc) if isinstance(n, ast.Name)} - {'coro', 'cur', 'start', 'result', 'ret', 'self', 'StopIteration', 'True', 'None'}
-        ok = ok and not glob_names
+        local = {a.arg for a in proc.args.args}
+        for n in ast.walk(proc):
+            if isinstance(n, ast.Name) and isinstance(n.ctx, ast.Store):
+                local.add(n.id)
+            if isinstance(n, ast.ExceptHandler) and n.name:
+                local.add(n.name)
+        glob_names = {n.id for n in ast.walk(proc) if isinstance(n, ast.Name)} - local - set(dir(_bi))
+        ok = ok and not glob_names and not any(isinstance(n, (ast.Global, ast.Nonlocal)) for n in ast.walk(proc))
     chk.expect(ok, 'C06.P1', 'Parser.process', 'must start a fresh coroutine (`coro = self.consume()`) and use no state besides '
                'consume/backtrack: a memo keyed without the context would let the second parse of a ?? operand reuse the first', RULES)
     rt = pm.get('routine')
